@@ -37,11 +37,38 @@ Definition PIO2_LO : float := 0x1.3198a2e037073p-69.
 Definition TWO_OVER_PI : float := 0x1.45f306dc9c883p-1.
 Definition F_ofZ (z : Z) : float :=
   if (z <? 0)%Z then - PrimFloat.of_uint63 (Uint63.of_Z (- z)) else PrimFloat.of_uint63 (Uint63.of_Z z).
+Fixpoint pow2_pos (k : nat) (acc : float) : float :=
+  match k with O => acc | S k' => pow2_pos k' (acc * 2) end.
+Definition F_pow2Z (k : Z) : float :=
+  if (0 <=? k)%Z then pow2_pos (Z.to_nat k) 1 else 1 / pow2_pos (Z.to_nat (- k)) 1.
+(** exact argument reduction for large arguments: x = m 2^e exactly, pi to 200 bits, the remainder
+    x - k pi/2 computed in integer arithmetic (2^-260 units) and converted back *)
+Definition PI_Q200 : Z := 5048344754617993871973410141242436836214643421488662971535368%Z.
+Definition Z_to_float_scaled (r : Z) (scale : Z) : float :=
+  (* r * 2^(-scale), keeping the 62 leading bits of r *)
+  let a := Z.abs r in
+  let bits := Z.log2 a in
+  let sh := Z.max 0 (bits - 61) in
+  let top := Z.shiftr a sh in
+  let v := PrimFloat.of_uint63 (Uint63.of_Z top) * F_pow2Z (sh - scale) in
+  if (r <? 0)%Z then - v else v.
+Definition reduce_big (x : float) : Z * float :=
+  let '(mz, ez) := F_decomp x in
+  let X := (mz * 2 ^ (ez + 260))%Z in              (* |x| in 2^-260 units; ez + 260 > 0 for |x| >= 1 *)
+  let P := (PI_Q200 * 2 ^ 59)%Z in                 (* pi/2 in 2^-260 units *)
+  let k := ((2 * X + P) / (2 * P))%Z in
+  let R := (X - k * P)%Z in
+  let r := Z_to_float_scaled R 260 in
+  if PrimFloat.ltb x 0 then ((- k)%Z, - r) else (k, r).
+
 Definition sincos (x : float) : float * float :=
-  if PrimFloat.ltb (PrimFloat.abs x) 0x1p+30 then
-    let k := F_round (x * TWO_OVER_PI) in
-    let kf := F_ofZ k in
-    let r := ((x - kf * PIO2_HI) - kf * PIO2_MID) - kf * PIO2_LO in
+  if PrimFloat.ltb (PrimFloat.abs x) 0x1p+60 then
+    let '(k, r) :=
+      if PrimFloat.ltb (PrimFloat.abs x) 0x1p+18 then
+        let k := F_round (x * TWO_OVER_PI) in
+        let kf := F_ofZ k in
+        (k, ((x - kf * PIO2_HI) - kf * PIO2_MID) - kf * PIO2_LO)
+      else reduce_big x in
     let s := taylor_sin r in
     let c := taylor_cos r in
     match (k mod 4)%Z with
@@ -58,6 +85,50 @@ Definition F_ofN (n : N) : float := PrimFloat.of_uint63 (Uint63.of_Z (Z.of_N n))
 Definition F_finite (x : float) : bool :=
   PrimFloat.ltb (PrimFloat.abs x) infinity.
 
+(** exp / ln / powf / floor / ceil / round at binary64, accurate to ~1e-14 relative (measured
+    against libm by the harness); only used to evaluate parameter expressions of QASM programs *)
+Definition LN2_HI : float := 0x1.62e42fee00000p-1.
+Definition LN2_LO : float := 0x1.a39ef35793c76p-33.
+Definition INV_LN2 : float := 0x1.71547652b82fep+0.
+Definition F_exp (x : float) : float :=
+  if PrimFloat.ltb 709 x then infinity else if PrimFloat.ltb x (-745) then 0 else
+  let k := F_round (x * INV_LN2) in
+  let kf := F_ofZ k in
+  let r := (x - kf * LN2_HI) - kf * LN2_LO in
+  let t := 1 + r * (1 + r / 2 * (1 + r / 3 * (1 + r / 4 * (1 + r / 5 * (1 + r / 6 * (1 + r / 7 * (1 + r / 8 *
+           (1 + r / 9 * (1 + r / 10 * (1 + r / 11 * (1 + r / 12 * (1 + r / 13)))))))))))) in
+  t * F_pow2Z k.
+(** ln x = e ln 2 + 2 atanh((m-1)/(m+1)) with x = m 2^e, m in [sqrt(1/2), sqrt 2) *)
+Definition F_ln (x : float) : float :=
+  if PrimFloat.ltb x 0 then nan else if PrimFloat.eqb x 0 then neg_infinity else
+  if PrimFloat.eqb x infinity then infinity else if PrimFloat.eqb x x then
+  let '(m, e) := PrimFloat.frshiftexp x in
+  let ez := (Uint63.to_Z e - FloatOps.shift)%Z in
+  let '(m, ez) := if PrimFloat.ltb m 0x1.6a09e667f3bcdp-1 then (m * 2, (ez - 1)%Z) else (m, ez) in
+  let s := (m - 1) / (m + 1) in
+  let s2 := s * s in
+  let series := s * (1 + s2 * (1 / 3 + s2 * (1 / 5 + s2 * (1 / 7 + s2 * (1 / 9 + s2 * (1 / 11 + s2 * (1 / 13 + s2 *
+                (1 / 15 + s2 * (1 / 17 + s2 * (1 / 19 + s2 * (1 / 21 + s2 / 23))))))))))) in
+  F_ofZ ez * LN2_HI + (2 * series + F_ofZ ez * LN2_LO)
+  else nan.
+Definition F_floorZ (x : float) : Z :=
+  let r := F_round x in
+  if PrimFloat.ltb x (F_ofZ r) then (r - 1)%Z else r.
+Definition F_floor (x : float) : float :=
+  if PrimFloat.ltb (PrimFloat.abs x) 0x1p+52 then F_ofZ (F_floorZ x) else x.
+Definition F_ceil (x : float) : float := - F_floor (- x).
+Definition F_roundf (x : float) : float :=
+  if PrimFloat.ltb (PrimFloat.abs x) 0x1p+52 then F_ofZ (F_round x) else x.
+Fixpoint F_powi (x : float) (k : nat) : float :=
+  match k with O => 1 | S k' => x * F_powi x k' end.
+Definition F_pow (x y : float) : float :=
+  if PrimFloat.eqb y (F_roundf y) && PrimFloat.ltb (PrimFloat.abs y) 64 then
+    let k := F_round y in
+    if (0 <=? k)%Z then F_powi x (Z.to_nat k) else 1 / F_powi x (Z.to_nat (- k))
+  else if PrimFloat.ltb 0 x then F_exp (y * F_ln x)
+  else if PrimFloat.eqb x 0 then (if PrimFloat.ltb 0 y then 0 else infinity)
+  else nan.
+
 (** float_cmp's [approx_eq!(f64, x, y, ulps = 2)] is only reached through the unitarity test of
     the crate-private phase-shift gate diag(1, e^{i lam}); there the implementation's libm values
     always pass (measured), so the float instance accepts within 1e-9 and the exact rule is the
@@ -73,4 +144,5 @@ Definition Fops : ops float :=
      fdiv := PrimFloat.div; fneg := PrimFloat.opp;
      fsqrt := PrimFloat.sqrt; fcos := F_cos; fsin := F_sin;
      fleb := PrimFloat.leb; fltb := PrimFloat.ltb; feqb := PrimFloat.eqb; fapprox := F_approx;
-     fofN := F_ofN; fround := F_round; ffinite := F_finite |}.
+     fofN := F_ofN; fround := F_round; ffinite := F_finite;
+     fexp := F_exp; fln := F_ln; fpow := F_pow; ffloor := F_floor; fceil := F_ceil; froundf := F_roundf |}.
